@@ -4,7 +4,7 @@
 From Coq Require Import NArith ZArith List Bool.
 Import ListNotations.
 Require Import UV.C07.Model UV.C07.Check UV.C07.Proofs UV.C07.Replay UV.C07.RecordReplay.
-Require UV.C07.RecordProof UV.C07.RecordProofCyg UV.C07.RecordProofB UV.C07.Range UV.C07.Multi UV.C07.MultiReplay UV.C07.Switch.
+Require UV.C07.RecordProof UV.C07.RecordProofCyg UV.C07.RecordProofB UV.C07.RecordProofT UV.C07.Range UV.C07.Multi UV.C07.MultiReplay UV.C07.Switch.
 Local Open Scope Z_scope.
 
 (* get_task_ustack's look-ahead list (time filter -t / time=, caller filter -C, `trace`) hands the
@@ -206,7 +206,17 @@ Theorem C07_record_equals_replay_caller_trace : forall c f,
 Proof. exact RecordProofB.record_equals_replay_caller. Qed.
 Print Assumptions C07_record_equals_replay_caller_trace.
 
-(* time= triggers (and -C / trace on the cygprof shape): exhaustive agreement on a bounded
+(* ... and with time= triggers as well (libmcount's per-frame saved filter.time against replay's per-task
+   stack of time= overrides), every call compared with the threshold in force for it. *)
+Theorem C07_record_equals_replay_time_trigger : forall c f,
+  RecordProofT.classT c -> plt_free_all c -> no_range c = true -> RecordProofT.wfT_forest c f ->
+  (RecordProof.fheight f <= 1024)%nat -> Z.of_nat (RecordProof.fheight f) <= gdepth c ->
+  rec_then_plain c MC.PG f = plain_then_opt c f.
+Proof. exact RecordProofT.record_equals_replay_time. Qed.
+Print Assumptions C07_record_equals_replay_time_trigger.
+
+(* the shared options MIXED (time= / -C / trace together with -F/-N/-D inside the class rr_class_of) and the
+   cygprof shape for time= / -C / trace: exhaustive agreement on a bounded
    domain inside the class rr_class_of
    (no call runs exactly a threshold or zero time, no depth= / trace_on / trace_off, time= never lowers the
    threshold, -C / trace / time= only when nothing is hidden by -F/-N/-D): 21060 + 8900 compared pairs,
